@@ -12,7 +12,7 @@ LEVEL = 'exploration'
 BOOT = {'kernel': True}
 TIERS = {
     'quick': {'runs': 100, 'budget_s': 100, 'shrink_runs': 40, 'opts': {'max_vtime': 8000.0, 'wall_timeout': 200}},
-    'thorough': {'runs': 4000, 'budget_s': 1200, 'shrink_runs': 80, 'opts': {'max_vtime': 8000.0, 'wall_timeout': 300}},
+    'thorough': {'runs': 4000, 'budget_s': 1200, 'shrink_runs': 80, 'opts': {'max_vtime': 8000.0, 'wall_timeout': 600}},
 }
 RULE = ('controller path: each run = one generated DoWhile package executed by the real Controller under the kernel (seeded '
         'schedule, pre-emption, stalls), k in {0,1,2,3,9,10,11,12} iterations decided by the scripted condition task; at every '
